@@ -3,6 +3,8 @@ package main
 // Evaluation of contract expressions over symbolic states.
 
 import (
+	"os"
+	"regexp"
 	"fmt"
 	"go/constant"
 	"go/token"
@@ -381,6 +383,10 @@ func (e *Engine) evalSpec(cur, old *State, x SExpr, env *SpecEnv) Val {
 		if n.Forall {
 			q = "forall"
 		}
+		if len(n.Vars) == 1 && len(binds) == 1 && strings.HasSuffix(binds[0], " (_ BitVec 64))") {
+			v := strings.TrimSuffix(strings.TrimPrefix(binds[0], "("), " (_ BitVec 64))")
+			body = reindexQuant(v, body)
+		}
 		return boolVal("(" + q + " (" + strings.Join(binds, " ") + ") " + body + ")")
 	case SCall:
 		return e.specCall(cur, old, n, env)
@@ -647,6 +653,10 @@ func (e *Engine) specCall(cur, old *State, n SCall, env *SpecEnv) Val {
 			if v.K == KIface {
 				return boolVal(not(eq(v.X[0], "0")))
 			}
+			if v.K != KPtr && v.K != KMap && v.K != KSlice && v.K != KFunc {
+				e.specErr("nonnil(x) expects a reference")
+				return boolVal("true")
+			}
 			return boolVal(not(eq(v.T, "0")))
 		case "isnil":
 			v := arg(0)
@@ -706,6 +716,10 @@ func (e *Engine) specCall(cur, old *State, n SCall, env *SpecEnv) Val {
 			return Val{K: KPtr, T: v.T}
 		case "has":
 			m := arg(0)
+			if m.Ty == nil {
+				e.specErr("has(m,k) expects a map")
+				return boolVal("false")
+			}
 			if mt, ok := m.Ty.Underlying().(*types.Map); ok {
 				k := e.mapKeyTerm(mt, e.coerceTo(arg(1), mt.Key()))
 				return boolVal(and(not(eq(m.T, "0")), e.mapHas(cur, mt, m.T, k)))
@@ -714,6 +728,28 @@ func (e *Engine) specCall(cur, old *State, n SCall, env *SpecEnv) Val {
 			return boolVal("false")
 		case "b2i":
 			return Val{K: KInt, Ty: types.Typ[types.Int], T: ite(e.evalSpecBool(cur, old, n.Args[0], env), bvLit(1, 64), bvLit(0, 64))}
+		case "atloop": // atloop(N, e): e evaluated in the state in which the current iteration of loop N began
+			ord := -1
+			if lit, ok := n.Args[0].(SLit); ok {
+				fmt.Sscanf(lit.Val, "%d", &ord)
+			}
+			if len(n.Args) == 2 && ord > 0 && env.fr != nil {
+				for hb, li := range e.P.loopsOf(env.fr.fn) {
+					if li.ordinal == ord {
+						if ref := env.fr.loopRef[hb]; ref != nil {
+							return e.evalSpec(ref, old, n.Args[1], env)
+						}
+					}
+				}
+			}
+			e.specErr("atloop(N, e): loop %d has not been entered here", ord)
+			return Val{K: KOpaque, T: e.fresh("specerr", "Int")}
+		case "lex": // lexicographic measure for `decreases`: lex(a, b, ...) of ints
+			v := Val{K: KTuple}
+			for i := range n.Args {
+				v.F = append(v.F, e.coerceTo(arg(i), types.Typ[types.Int]))
+			}
+			return v
 		case "same": // structural equality (NaN == NaN), component-wise
 			return e.specBin2(cur, "==", arg(0), e.coerceLike(arg(1), arg(0)))
 		case "isZero":
@@ -1012,6 +1048,9 @@ func (e *Engine) finish(st *State, rs []Val, root *Frame) {
 		if e.con.Lemma {
 			kind = "K6"
 		}
+		if os.Getenv("GOVC_DBGPOST") == lbl {
+			fmt.Fprintln(os.Stderr, "POST", lbl, len(g), g[:min(len(g), 300)])
+		}
 		e.oblige(st, fmt.Sprintf("%s#post:%s", e.fnShort(), lbl), kind, c.Text, g, "return", c.Props)
 	}
 	for _, c := range e.con.get("mustcall") {
@@ -1218,6 +1257,15 @@ func (e *Engine) checkFrameRel(st, ref *State, c *Clause, env *SpecEnv, kind, wh
 			continue
 		}
 		if strings.HasPrefix(key, "G:") {
+			named := false
+			for _, loc := range c.Locs {
+				if id, ok := loc.(SIdent); ok && strings.Contains(key, "."+id.Name+":") {
+					named = true // the frame clause names this package-level variable
+				}
+			}
+			if named {
+				continue
+			}
 			e.oblige(st, fmt.Sprintf("%s#"+kind+":%s", e.fnShort(), key), "K3", "global unchanged: "+c.Text, eq(exit, ent), "return", c.Props)
 			continue
 		}
@@ -1306,3 +1354,69 @@ func (e *Engine) structAddr(cur, old *State, x SExpr, env *SpecEnv) (types.Type,
 	}
 	return nil, "", false
 }
+
+// reindexQuant rewrites a quantifier body whose bound variable k (64-bit) is used as `OFF + k` (an
+// element of a slice with offset OFF) so that the bound variable is the absolute position itself:
+// k' = OFF + k is a bijection on 64-bit vectors, `(bvadd OFF k)` becomes k' and every other use of k
+// becomes `(bvsub k' OFF)`. The formula is equivalent; array reads then have the plain bound
+// variable as index, which is what the solvers' instantiation needs.
+func reindexQuant(v, body string) string {
+	pat := " " + v + ")"
+	counts := map[string]int{}
+	for i := 0; i+len(pat) <= len(body); i++ {
+		if body[i:i+len(pat)] != pat {
+			continue
+		}
+		// walk back to the matching "(" of the enclosing application
+		d := 0
+		j := i - 1
+		for ; j >= 0; j-- {
+			c := body[j]
+			if c == ')' {
+				d++
+			} else if c == '(' {
+				if d == 0 {
+					break
+				}
+				d--
+			}
+		}
+		if j < 0 {
+			continue
+		}
+		app := body[j : i+len(pat)]
+		if !strings.HasPrefix(app, "(bvadd ") {
+			continue
+		}
+		off := strings.TrimSpace(app[len("(bvadd ") : len(app)-len(pat)])
+		if off == "" || strings.Contains(off, v) || len(sexpParts("("+off+")")) != 1 {
+			continue
+		}
+		counts[off]++
+	}
+	best, bn := "", 0
+	for o, c := range counts {
+		if c > bn || (c == bn && o < best) {
+			best, bn = o, c
+		}
+	}
+	if bn == 0 {
+		return body
+	}
+	// OFF must not mention variables bound inside this body
+	for _, m := range boundVarRe.FindAllString(body, -1) {
+		name := strings.TrimSuffix(strings.TrimPrefix(m, "(("), " ")
+		if name != v && strings.Contains(best, name) {
+			return body
+		}
+	}
+	if bvz, ok := bvConst(best); ok && bvz == 0 {
+		return strings.ReplaceAll(body, "(bvadd "+best+" "+v+")", v)
+	}
+	const mark = "\x00REIDX\x00"
+	out := strings.ReplaceAll(body, "(bvadd "+best+" "+v+")", mark)
+	out = strings.ReplaceAll(out, v, "(bvsub "+v+" "+best+")")
+	return strings.ReplaceAll(out, mark, v)
+}
+
+var boundVarRe = regexp.MustCompile(`\(\(\|q\.[^|]*\| `)
